@@ -798,6 +798,8 @@ def replay_testvectors(elab, tv_text, tb_text, case_merge=False, opts=None):
             raise Unsupported("test vector line " + l)
     blocks.append((t, cur))
     end = t
+    if tb["clocks"] and end // min(tb["clocks"].values()) > 400000:
+        raise Unsupported("test vector file spans more than 400000 clock half periods (corrupt ADV record?)")
     # merge with clock toggles
     events = [(bt, 1, acts) for bt, acts in blocks]
     for c, half in tb["clocks"].items():
@@ -852,13 +854,16 @@ def check_timebase(tbtrace_text, tv_text):
     process (which runs from the half-period constant, not from the vector file).
     -> dict(groups=n, worst_early_ps=.., worst_late_ps=.., first_bad=None | dict(...))"""
     from fractions import Fraction
-    rounds = []
+    rounds, timing = [], None
     for line in tbtrace_text.splitlines():
         p = line.split()
-        if len(p) > 4 and p[0] == "cy" and p[2].startswith("t=") and p[3].startswith("next="):
-            outs = p[p.index("out") + 1:]
+        if p and p[0] == "timing":
+            timing = {x.split("=")[0]: Fraction(x.split("=")[1]) * 10 ** 12 for x in p[1:]}       # ps
+        elif len(p) > 2 and p[0] == "cy" and p[2] == "out" and timing:
+            outs = p[3:]
             recordable = sum(1 for o in outs if any(ch in "01" for ch in o))
-            rounds.append((int(p[1]), Fraction(p[2][2:]) / 1000, Fraction(p[3][5:]) / 1000, recordable))     # ps
+            t0 = timing["start"] + int(p[1]) * timing["step"]
+            rounds.append((int(p[1]), t0, t0 + timing["gap"], recordable))
     groups, t, lines, i, in_group = [], 0, tv_text.split("\n"), 0, False
     while i < len(lines):
         l = lines[i].strip()
